@@ -325,9 +325,9 @@ pub fn prop() -> Prop {
             "the reference for `no history` is a fresh process per (query, document) pair",
         ],
         subs: vec![
-            Sub { name: "random-entry-points", kind: Kind::Random { f: random_entry_points, quick: 30_000, thorough: 1_600_000, len: 500 } },
-            Sub { name: "random-history", kind: Kind::Random { f: random_history, quick: 160, thorough: 4_000, len: 1200 } },
-            Sub { name: "random-threads", kind: Kind::Random { f: random_threads, quick: 200, thorough: 5_000, len: 2400 } },
+            Sub { name: "random-entry-points", kind: Kind::Random { f: random_entry_points, quick: 150_000, thorough: 3_000_000, len: 500 } },
+            Sub { name: "random-history", kind: Kind::Random { f: random_history, quick: 400, thorough: 8_000, len: 1200 } },
+            Sub { name: "random-threads", kind: Kind::Random { f: random_threads, quick: 480, thorough: 9_600, len: 2400 } },
         ],
         direct: Some(direct),
         selftest: None,
